@@ -29,6 +29,8 @@ import (
 type typeDictionary struct {
 	mu   sync.Mutex
 	dict map[Node]map[string]*Typedef
+	// resolved lists the Types whose YangType has been set by resolve.
+	resolved []*Type
 	// identities contains a dictionary of resolved identities.
 	identities identityDictionary
 }
@@ -57,6 +59,32 @@ func (d *typeDictionary) merge(o *typeDictionary) {
 			d.add(n, name, td)
 		}
 	}
+}
+
+// forgetResolved drops everything resolve has memoised in the typedefs of d
+// and in the types resolved through d, so that the next resolve starts afresh.
+func (d *typeDictionary) forgetResolved() {
+	defer d.mu.Unlock()
+	d.mu.Lock()
+	for _, t := range d.resolved {
+		t.YangType = nil
+		t.resolveErrs = nil
+	}
+	d.resolved = nil
+	for _, dict := range d.dict {
+		for _, td := range dict {
+			if td.Parent != nil {
+				td.YangType = nil
+			}
+		}
+	}
+}
+
+// noteResolved records that t.YangType has been set.
+func (d *typeDictionary) noteResolved(t *Type) {
+	defer d.mu.Unlock()
+	d.mu.Lock()
+	d.resolved = append(d.resolved, t)
 }
 
 // find returns the Typedef name define in node n, or nil.
@@ -286,6 +314,7 @@ check:
 
 	y.Base = td.Type
 	t.YangType = &y
+	d.noteResolved(t)
 
 	if v := t.RequireInstance; v != nil {
 		b, err := v.asBool()
